@@ -804,6 +804,10 @@ void save_watchpoint(struct mcount_thread_data *mtdp, struct mcount_ret_stack *r
 	if (watchpoints & MCOUNT_WATCH_CPU) {
 		int cpu = sched_getcpu();
 
+		/*
+		 * Without a free slot keep the old observation (like the variables
+		 * below): the change is reported by the next hook that has room.
+		 */
 		if ((mtdp->watch.cpu != cpu || init_watch) && mtdp->nr_events < MAX_EVENT) {
 			struct mcount_event *event;
 			event = &mtdp->event[mtdp->nr_events++];
@@ -814,8 +818,8 @@ void save_watchpoint(struct mcount_thread_data *mtdp, struct mcount_ret_stack *r
 			event->dsize = sizeof(cpu);
 
 			mcount_memcpy4(event->data, &cpu, sizeof(cpu));
+			mtdp->watch.cpu = cpu;
 		}
-		mtdp->watch.cpu = cpu;
 	}
 
 	if (watchpoints & MCOUNT_WATCH_VAR) {
